@@ -26,6 +26,40 @@ def effectiveWeight : Option Int → Int
   | none => 1
   | some w => if 0 ≤ w ∧ w ≤ 1000000 then w else 0
 
+/-- what a route rule's spec says about one backendRef: the weight field, whether the reference resolves
+(supported kind, namespace permitted by a ReferenceGrant, existing Service with that port), and the
+Service port it names (`<ns>_<svc>_<port>`) -/
+structure SpecRef where
+  weight : Option Int
+  resolves : Bool
+  target : String
+  deriving Repr
+
+/-- graph.BackendRef (the fields the dataplane reads) -/
+structure GraphRef where
+  weight : Int
+  valid : Bool
+  svcPort : String
+  deriving Repr
+
+/-- graph `createBackendRef`: the weight is always computed; a ref is valid iff it resolves and its weight
+is admissible -/
+def createBackendRef (s : SpecRef) : GraphRef :=
+  let inRange := match s.weight with
+    | none => true
+    | some w => decide (0 ≤ w ∧ w ≤ 1000000)
+  ⟨effectiveWeight s.weight, s.resolves && inRange, s.target⟩
+
+/-- `BackendRef.ServicePortReference()` -/
+def GraphRef.servicePortReference (g : GraphRef) : String := if g.valid then g.svcPort else ""
+
+/-- dataplane `newBackendGroup`: one Backend per BackendRef, in order -/
+def newBackendGroup (refs : List GraphRef) : List Backend :=
+  refs.map fun g => ⟨g.servicePortReference, g.weight.toNat, g.valid⟩
+
+/-- the backends of a rule as a function of its spec -/
+def ruleBackends (spec : List SpecRef) : List Backend := newBackendGroup (spec.map createBackendRef)
+
 /-- `getSplitClientValue` -/
 def value (b : Backend) : String := if b.valid then b.upstream else invalidBackendRef
 
